@@ -178,7 +178,8 @@ func writeNamespaceMembers(w *formatting.IndentedWriter, ns *dsl.Namespace) {
 							" &&\n",
 							td.Fields,
 							func(w *formatting.IndentedWriter, i int, f *dsl.Field) {
-								fmt.Fprintf(w, "%s == other.%s", common.FieldIdentifierName(f.Name), common.FieldIdentifierName(f.Name))
+								// "this->" in case a field has the same name as the parameter
+								fmt.Fprintf(w, "this->%s == other.%s", common.FieldIdentifierName(f.Name), common.FieldIdentifierName(f.Name))
 							})
 					}
 					w.WriteStringln(";")
